@@ -245,6 +245,7 @@ func (c *MJSocialComponent) Render(w io.StringWriter) error {
 	cssClass := c.GetWrittenAttribute(constants.MJMLCSSClass)
 	if cssClass != "" {
 		td.AddAttribute(constants.AttrClass, cssClass)
+		c.ApplyInlineStyles(td, cssClass)
 	}
 
 	// Add container background color if specified
@@ -736,6 +737,9 @@ func (c *MJSocialElementComponent) Render(w io.StringWriter) error {
 	cssClass := c.GetWrittenAttribute("css-class")
 	if cssClass != "" {
 		trTag := fmt.Sprintf("<tbody><tr class=\"%s\">", cssClass)
+		if inlined := c.BuildInlineStyleString(cssClass); inlined != "" {
+			trTag = fmt.Sprintf("<tbody><tr class=\"%s\" style=\"%s\">", cssClass, inlined)
+		}
 		if _, err := w.WriteString(trTag); err != nil {
 			return err
 		}
